@@ -232,8 +232,8 @@ def extra_c19(seed, tier, log):
             continue
         for name, x in (ta.get("records") or {}).items():
             y = (tb.get("records") or {}).get(name)
-            if x is None or y is None:
-                continue
+            if x is None or y is None or name == "limiting_inputs":
+                continue      # the limiting flag is a strict test that sits at an exact tie at equilibrium (psi = 1)
             xs, ys = x[:n:1], y[k * dt:k * dt + n]
             # rows are indexed by temporal unit; only multiples of dt are written
             xs, ys = xs[::dt], ys[::dt]
@@ -1037,3 +1037,54 @@ def extra_c20(seed, tier, log):
         s = base(); s["sim"]["save_records"] = ["production_realised", "not_a_record"]; s["id"] += "-rec"
         expect_reject("unknown record name", s)
     return dict(failures=failures, evaluations=evals, scenarios=scenarios, obligations=[], samples=samples)
+
+
+# ---------------------------------------------------------------------------
+def extra_c01(seed, tier, log):
+    """Long event-free horizons: every recorded row equals the first one (relative 1e-9)."""
+    from harness import gen
+    rng = random.Random(f"c01-{seed}-{tier}")
+    scns = []
+    sp = gen.SPARSITIES[1:]
+    n = n_for(tier, 8, 40)
+    for k in range(n):
+        s = gen.gen_scenario(rng.randrange(10**9), "equilibrium",
+                             dict(sparsity=sp[k % len(sp)], order_type=["alt", "noalt"][k % 2]))
+        steps = n_for(tier, 150, 400)
+        s["sim"]["n"] = steps * s["model"]["dt"]
+        s["id"] += f"-long{steps}"
+        scns.append(s)
+    res = run_many([(s, {}) for s in scns])
+    failures, scenarios = [], {}
+    for s, tr in zip(scns, res):
+        scenarios[s["id"]] = s
+        if tr.get("error") is not None:
+            failures.append(_fail("C01", s, f"event-free run raised {tr['error']['root_class']}: {tr['error']['root_msg'][:120]}",
+                                  sig="raised:" + tr["error"]["root_class"]))
+            continue
+        if tr.get("crashed"):
+            failures.append(_fail("C01", s, "event-free run flagged as crashed", sig="crashed"))
+            continue
+        dt = s["model"]["dt"]
+        for name in ("production_realised", "production_capacity", "intermediate_demand", "overproduction", "final_demand_unmet"):
+            a = (tr.get("records") or {}).get(name)
+            if a is None:
+                continue
+            rows = a[::dt].astype(float)
+            ref = rows[0]
+            scale = np.maximum(np.abs(ref), float(np.abs((tr["records"]["production_realised"][0])).max()) * 1e-6)
+            if name == "final_demand_unmet":
+                ref = np.zeros_like(ref)
+                scale = np.abs(tr["records"]["production_realised"][0].astype(float)) + 1e-300
+            with np.errstate(invalid="ignore"):
+                bad = ~(np.abs(rows - ref) <= 1e-9 * scale) | np.isnan(rows)
+            if np.any(bad):
+                t, f = (int(v) for v in np.argwhere(bad)[0])
+                from harness import monitors as _M
+                known = _M.fast_overproduction(s) and t > 20
+                failures.append(_fail("C01", s, f"record {name} leaves the equilibrium at step {t} (industry {f}): {rows[t, f]!r} vs {ref[f]!r}",
+                                      sig="equilibrium-unstable-fast-overproduction" if known else f"drift:{name}", t=t * dt))
+                break
+    return dict(failures=failures, evaluations=len(scns), scenarios=scenarios, obligations=[],
+                samples=[dict(kind="event-free runs over long horizons, all sparsity classes x order variants", runs=len(scns),
+                              steps=n_for(tier, 150, 400))])
